@@ -431,3 +431,32 @@ Theorem single_invalid_field_code s r :
 Proof.
   unfold validate. repeat split; intros; repeat match goal with H : _ = _ |- _ => rewrite H; clear H end; reflexivity.
 Qed.
+
+(* ---- KF-C14-1: one identifier for two different requests -------------------------------------------- *)
+Theorem unsubscribe_spares_other_requests_partial : unsubscribe_spares_other_requests_stmt true.
+Proof.
+  intros s aid key u v Hu Hv Hk Hne.
+  pose proof (isolation s (Unsubscribe aid key) u Hu) as H. cbn beta iota in H.
+  apply H. congruence.
+Qed.
+
+(* two requests that differ in the reference value of their filter (-1 / -2) and were given the same identifier 0:
+   the unsubscription of the second removes the first *)
+Definition kf1_req (ref : Z) : sreq :=
+  mkSreq 2 0 [2] None true [] true (F1 (mkStmt [[115]] 2 (RInt ref))) (Some 0) (Some 1).
+Definition kf1_state : st := state_after 0 [RegCons 2 [2]; Subscribe (kf1_req (-1)); Subscribe (kf1_req (-2))].
+
+Theorem unsubscribe_spares_other_requests_refuted : ~ unsubscribe_spares_other_requests_stmt false.
+Proof.
+  intros H.
+  specialize (H kf1_state 2 0 (new_sub (state_after 0 [RegCons 2 [2]]) (kf1_req (-1)))
+                (mkSub 0 1 2 (mkReq [2] (F1 (mkStmt [[115]] 2 (RInt (-2)))) []) (Some 0) (Some 1) 0)).
+  assert (Hin : In (new_sub (state_after 0 [RegCons 2 [2]]) (kf1_req (-1))) (subs kf1_state)) by (vm_compute; auto).
+  assert (Hin2 : In (mkSub 0 1 2 (mkReq [2] (F1 (mkStmt [[115]] 2 (RInt (-2)))) []) (Some 0) (Some 1) 0) (subs kf1_state))
+    by (vm_compute; auto).
+  specialize (H Hin Hin2 eq_refl).
+  assert (Hne : u_req (new_sub (state_after 0 [RegCons 2 [2]]) (kf1_req (-1))) <>
+                u_req (mkSub 0 1 2 (mkReq [2] (F1 (mkStmt [[115]] 2 (RInt (-2)))) []) (Some 0) (Some 1) 0))
+    by (vm_compute; discriminate).
+  specialize (H Hne). vm_compute in H. exact H.
+Qed.
